@@ -925,6 +925,12 @@ impl<'a, R: Read, E: Encryption> Builder<'a, R, E> {
             } else {
                 self.to_writer(rng, &mut enc)?;
             }
+
+            // Flush the trailing partial base64 quantum and the last line explicitly,
+            // so that sink errors are reported instead of being swallowed on drop.
+            enc.finish()?;
+            drop(enc);
+            line_wrapper.finish()?;
         }
 
         // write footer
